@@ -65,7 +65,7 @@ def check(run):
     run.lean_props(common.modules_for("C09"))
     rng = run.rng
     betas = corr.expibeta_strata(rng, 1)
-    kern.corr_H(run, [(0, 0), (1, 1), (3, 1), (4, 4), (7, 3)] if quick else [(L, P) for L in range(0, 9) for P in (0, 1, L) if P <= L], betas[:5] if quick else betas, corr.POISONS)
+    run.attempt("corr:corr_H", kern.corr_H, run, [(0, 0), (1, 1), (3, 1), (4, 4), (7, 3)] if quick else [(L, P) for L in range(0, 9) for P in (0, 1, L) if P <= L], betas[:5] if quick else betas, corr.POISONS)
     for limited in (False, True):
         make = (lambda: spherical.Wigner(5, mp_max=1)) if limited else (lambda: spherical.Wigner(5))
         ops = alphabet(rng, limited)
